@@ -18,6 +18,8 @@ from ..gen import ExprGen, gen_types, gen_fluents
 from ..inject import LineFault
 
 NARY = {"and": "and", "or": "or", "plus": "plus", "times": "times"}
+TRAJ = {"always": "Always", "sometime": "Sometime", "at_most_once": "AtMostOnce", "sometime_before": "SometimeBefore",
+        "sometime_after": "SometimeAfter"}
 BIN = {"implies": "implies", "iff": "iff", "eq": "equals", "le": "le", "lt": "lt", "minus": "minus", "div": "div"}
 OPOV = {"+": "plus", "-": "minus", "*": "times", "/": "div", "//": "div", "<": "lt", "<=": "le", ">": "gt", ">=": "ge",
         "&": "and", "|": "or"}
@@ -110,6 +112,15 @@ class Cons:
             return fn(*vals)
         if k == "not":
             return em.Not(self.arg(d[1]))
+        if k == "xor":
+            args = d[1:]
+            style = "unpack"
+            if args and args[-1] in ("list", "unpack"):
+                style, args = args[-1], args[:-1]
+            vals = [self.arg(a) for a in args]
+            return em.XOr(vals) if style == "list" else em.XOr(*vals)
+        if k in TRAJ:
+            return getattr(em, TRAJ[k])(*[self.arg(a) for a in d[1:]])
         if k in BIN or k in ("ge", "gt"):
             fn = {"implies": em.Implies, "iff": em.Iff, "eq": em.Equals, "le": em.LE, "lt": em.LT, "ge": em.GE,
                   "gt": em.GT, "minus": em.Minus, "div": em.Div}[k]
@@ -215,6 +226,22 @@ def nf(d, world, ordered=False):
     if k in ("not", "inv"):
         a = rec(d[1])
         return a[1] if a[0] == "not" else ("not", a)
+    if k == "xor":
+        # documented: "an exclusive disjunction of terms in CNF form": Or over i of And(a_i, Not(o) for the OTHER terms);
+        # the other terms are told apart by node identity, i.e. by normal form
+        args = [a for a in d[1:] if a not in ("list", "unpack")]
+        if not args:
+            return ("bool", False)
+        if len(args) == 1:
+            return rec(args[0])
+        nfs = [rec(a) for a in args]
+        terms = []
+        for i, a in enumerate(args):
+            others = [o for o, no in zip(args, nfs) if no != nfs[i]]
+            terms.append(["and", a] + [["not", o] for o in others])
+        return rec(["or"] + terms)
+    if k in TRAJ:
+        return (k,) + tuple(rec(a) for a in d[1:])
     if k in BIN:
         return (BIN[k], rec(d[1]), rec(d[2]))
     if k == "ge":
@@ -284,7 +311,7 @@ def nf_kind(n, world):
     if k == "ifv":
         return ("num",) if nf_kind(n[3], world) == ("num",) else None
     sub = [nf_kind(a, world) for a in n[1:]] if k not in ("exists", "forall", "f") else None
-    if k in ("and", "or", "not", "implies", "iff"):
+    if k in ("and", "or", "not", "implies", "iff") or k in TRAJ:
         return ("bool",) if sub and all(x == ("bool",) for x in sub) else None
     if k in ("le", "lt"):
         return ("bool",) if len(sub) == 2 and all(x == ("num",) for x in sub) else None
@@ -560,13 +587,21 @@ class ConsHist(Engine):
             special.append(["real", str(n_)])
             special.append(["int", n_])
             special.append(["le", ["real", str(n_)], ro.choice(pn)])
+        # XOr (documented expansion) and the trajectory operators
+        xa, xb, xc = ro.choice(pb), ro.choice(pb), ro.choice(pb)
+        special += [["xor"], ["xor", xa], ["xor", xa, xb, ro.choice(["list", "unpack"])], ["xor", xa, xb, xc], ["xor", xa, xa],
+                    ["xor", xb, xa]]
+        special += [[t_, ro.choice(pb)] for t_ in ("always", "sometime", "at_most_once")]
+        special += [[t_, ro.choice(pb), ro.choice(pb)] for t_ in ("sometime_before", "sometime_after")]
         for k_ in ("and", "or"):
             special.append([k_, ro.choice(pb), ro.choice(["list", "unpack", "gen"])])
         for k_ in ("plus", "times"):
             special.append([k_, ro.choice(pn), ro.choice(["list", "unpack", "gen"])])
         illtyped = [["and", ["int", 1], ["bool", True]], ["plus", ["bool", True], ["int", 1]], ["not", ["int", 3]],
                     ["eq", ["bool", True], ["bool", False]], ["le", ["o", objs[0][0]], ["int", 1]],
-                    ["f", fluents[1]["name"], ["int", 1]], ["div", ["int", 1], ["int", 0]]]
+                    ["f", fluents[1]["name"], ["int", 1]], ["div", ["int", 1], ["int", 0]],
+                    ["xor", ro.choice(pb), ro.choice(pb), ["int", 3]], ["xor", ["int", 1], ro.choice(pb)],
+                    ["always", ["int", 2]]]
         nops = ro.randint(30, 150) if tier == "thorough" else ro.randint(30, 90)
         ops = []
         rej = 0.1 if profile != "reject" else 0.3
@@ -768,7 +803,7 @@ def _kind(e, world=None):
     if k == "f" and world is not None:
         t = next(f["type"] for f in world["fluents"] if f["name"] == e[1])
         return "bool" if t[0] == "bool" else ("num" if t[0] in ("int", "real") else "obj")
-    if k in ("and", "or", "not", "implies", "iff", "eq", "le", "lt", "ge", "gt", "exists", "forall", "bool"):
+    if k in ("and", "or", "not", "implies", "iff", "eq", "le", "lt", "ge", "gt", "exists", "forall", "bool", "xor"):
         return "bool"
     if k in ("plus", "minus", "times", "div", "int", "real", "neg", "ifv"):
         return "num"
